@@ -36,7 +36,9 @@ type MessageFuture struct {
 func NewMessageFuture(message RpcMessage) *MessageFuture {
 	return &MessageFuture{
 		ID:   message.ID,
-		Done: make(chan struct{}),
+		// buffered: completing a future must never block the goroutine that processes incoming
+		// messages, even if the waiter has just given up
+		Done: make(chan struct{}, 1),
 	}
 }
 
